@@ -63,7 +63,7 @@ func plainResolve(ctx graphql.FieldContext) (interface{}, error) {
 	r.noteCreate(it)
 	switch it.kind {
 	case kGo:
-		ch := apifu.Go(ctx.Context, r.goFunc(it))
+		ch := apifu.Go(ctx.Context, r.goFunc(it, ctx.Context))
 		r.setProm(it.id, ch)
 		return ch, nil
 	case kBatch:
@@ -122,7 +122,7 @@ func getter(ctx graphql.FieldContext) (interface{}, error) {
 		r.setProm(it.id, v.(graphql.ResolvePromise))
 		return v, err
 	}
-	ch := apifu.Go(ctx.Context, r.goFunc(it))
+	ch := apifu.Go(ctx.Context, r.goFunc(it, ctx.Context))
 	r.setProm(it.id, ch)
 	return ch, nil
 }
